@@ -20,6 +20,7 @@ INVARIANT NeverUnverified
 INVARIANT OfflineWhenCached
 INVARIANT ServedWhenCached
 INVARIANT RetryBound
+INVARIANT ErrorClassOK
 INVARIANT NoCrossTalk
 INVARIANT ProbeDone
 INVARIANT EmitInit
